@@ -35,7 +35,7 @@ func init() {
 		return us
 	}
 	xa := append([]string{
-		"IBC core's proof verification and ordered-channel bookkeeping are replaced by the harness Net shim (in-order exactly-once delivery, acknowledgement written by the shim, state of a failed receive reverted); SendPacket, client creation/status, channel and connection lookups are the real ibc-go keepers",
+		"IBC is ibc-go's real core message server on both chains (handshakes, MsgRecvPacket, MsgAcknowledgement, MsgTimeout: client status, timeouts, sequences, commitments, acknowledgements, rollback are ibc-go's code); only Merkle proof verification is answered by a proof oracle that looks the claimed key up in the counterparty's actual store, and light-client updates are written as consensus states",
 		"light clients are refreshed at every block of the host chain (default environment) by writing the consensus state a successful MsgUpdateClient would store; all chains follow one wall clock",
 		"a consumer chain is booted through the consumer app's own InitChainer from the genesis the provider recorded",
 	}, commonAssumptions...)
